@@ -99,11 +99,11 @@ func c07Trans(c *Ctx, pre *Node, st Step, res *Result, post *State) ([]Violation
 }
 
 func checkC07(e *RunEnv) *CheckResult {
-	names := []string{"test/x", "test/y", "test.c", "test-data", "test0", "t"}
+	names := []string{"test/x", "test/y", "test.c", "test-data", "test0", "t", "test/s/z", "tests/w"}
 	spec := &Spec{
 		Seeds: []Seed{{"S0", seedS0()}, {"S1-one-file", append(seedS0(), Write("t", v1("t")), Run("add", "t"), Run("commit", "-m", "c1"))}, {"S1-six-names", append(seedS0(), Write("test/x", v1("test/x")), Write("test/y", v1("test/y")), Write("test.c", v1("test.c")),
-			Write("test-data", v1("test-data")), Write("test0", v1("test0")), Write("t", v1("t")), Run("add", "test", "test.c", "test-data", "test0", "t"), Run("commit", "-m", "c1"))}},
-		Depth: e.pick(4, 6),
+			Write("test-data", v1("test-data")), Write("test0", v1("test0")), Write("t", v1("t")), Write("test/s/z", v1("test/s/z")), Write("tests/w", v1("tests/w")), Run("add", "test", "test.c", "test-data", "test0", "t", "tests"), Run("commit", "-m", "c1"))}},
+		Depth: e.pick(3, 5),
 		Steps: func(n *Node) []Step {
 			a := n.Abs()
 			t := unionTags(nameSetTags(indexPaths(a)), stateTags(a))
@@ -119,7 +119,7 @@ func checkC07(e *RunEnv) *CheckResult {
 				}
 				steps = append(steps, Run("add", p).WithTags(t...), Run("rm", p).WithTags(t...), Run("restore", "--staged", p).WithTags(t...))
 			}
-			steps = append(steps, Run("add", "test").WithTags(t...), Run("commit", "-m", "m").WithTags(t...), Run("reset", "--mixed", "HEAD@{1}").WithTags(t...))
+			steps = append(steps, Run("add", "test").WithTags(t...), Run("add", "tests").WithTags(t...), Run("commit", "-m", "m").WithTags(t...), Run("reset", "--mixed", "HEAD@{1}").WithTags(t...))
 			return steps
 		},
 		CheckTrans: c07Trans,
